@@ -185,7 +185,7 @@ func (sc *scenario) syncArgs(d *WorkerDef) SyncArgs {
 func (sc *scenario) step(allowNew bool) bool {
 	rng, w := sc.rng, sc.w
 	sc.noteOps()
-	if len(sc.actorsIn("gate")) == 0 && len(sc.actorsIn("send")) == 0 && len(w.DueTimers()) == 0 && rng.Intn(3) == 0 {
+	if len(sc.actorsIn("gate")) == 0 && len(sc.actorsIn("send")) == 0 && len(sc.actorsIn("auth")) == 0 && len(w.DueTimers()) == 0 && rng.Intn(3) == 0 {
 		w.Quiescent(sc.parked())
 		if rng.Intn(3) == 0 {
 			w.Listing()
@@ -201,6 +201,10 @@ func (sc *scenario) step(allowNew bool) bool {
 	for _, a := range sc.actorsIn("gate") {
 		a := a
 		add(30, func() { w.Release(a) })
+	}
+	for _, a := range sc.actorsIn("auth") {
+		a := a
+		add(12, func() { w.ReleaseAuth(a) })
 	}
 	for _, a := range sc.actorsIn("send") {
 		a := a
@@ -297,6 +301,10 @@ func (sc *scenario) settle() {
 		}
 		if s := sc.actorsIn("send"); len(s) > 0 {
 			sc.w.ReleaseSend(pick(sc.rng, s), nil)
+			continue
+		}
+		if s := sc.actorsIn("auth"); len(s) > 0 {
+			sc.w.ReleaseAuth(pick(sc.rng, s))
 			continue
 		}
 		return
